@@ -682,6 +682,22 @@ pub fn run(seed: u64, tier: &str, outdir: &str) {
         cases.push(realise(&mut r, n, mask, "random-large"));
     }
 
+    // a KEPT transaction with many slips: each list within the limit of 255, more than 255 in total (between two omitted ones,
+    // first, last, alone)
+    for (nf, nt) in [(200usize, 100usize), (255, 255), (130, 126), (1, 255), (255, 1)] {
+        let wide = TxD { gt: false, from: std::iter::once(1u32).chain(std::iter::repeat(5u32).take(nf - 1)).collect(), to: vec![6u32; nt] };
+        let small = || TxD { gt: false, from: vec![5], to: vec![6] };
+        for shape in 0..4 {
+            let txs = match shape {
+                0 => vec![small(), wide.clone(), small()],
+                1 => vec![wide.clone(), small(), small()],
+                2 => vec![small(), small(), wide.clone()],
+                _ => vec![wide.clone()],
+            };
+            cases.push(Case { keys: vec![1], txs, origin: "wide-kept-transaction" });
+        }
+    }
+
     let mut req = vec![flags.clone()];
     req.extend(cases.iter().map(|c| c.op()));
     let ans = run_driver(&req, outdir);
